@@ -703,6 +703,169 @@ def attribute_txn(c, obs, f):
     return "C14-si-reads-live" if f.get("mechanism") == "si-reads-live" else None
 
 
+# --------------------------------------------------------------------------- families: BTree
+BT_IMPORTS = "From HS Require Import Base.Prelude C14.BtModel."
+
+
+def bt_dump(bt):
+    out = []
+
+    def walk(n):
+        out.append([bool(n.leaf), [kid(k) for k in n.keys], list(n.values) if n.leaf else []])
+        if not n.leaf:
+            for ch in n.children:
+                walk(ch)
+    walk(bt._root)
+    return dict(dump=out, depth=bt._depth, total=bt._total_keys)
+
+
+def bsnap_term(s):
+    return ([(lf, ks, vs) for lf, ks, vs in s["dump"]], s["depth"], s["total"])
+
+
+def bop_term(o):
+    if o[0] == "put":
+        return Ctor("BPut", o[1], o[2])
+    if o[0] == "del":
+        return Ctor("BDel", o[1])
+    if o[0] == "get":
+        return Ctor("BGet", o[1])
+    return Ctor("BScan", o[1], o[2])
+
+
+def bout_term(o, r):
+    if o[0] == "put":
+        return Ctor("BONone")
+    if o[0] == "del":
+        return Ctor("BODel", bool(r))
+    if o[0] == "get":
+        return Ctor("BOGet", None if r is None else SomeV(r))
+    return Ctor("BOScan", [(k, v) for k, v in r])
+
+
+def gen_bt_seq(rng):
+    nkeys = rng.choice([4, 8, 12, 20])
+    ops = gen_ops(rng, rng.randint(5, 70), nkeys)
+    return dict(order=rng.choice([3, 3, 4, 5, 6]), nkeys=nkeys, api=rng.choice(["sync", "gen"]), ops=ops)
+
+
+def impl_bt_seq(c):
+    from happysimulator.components.storage.btree import BTree
+    bt = BTree("bt", order=c["order"])
+    results, snaps = [], []
+    for o in c["ops"]:
+        if o[0] == "put":
+            bt.put_sync(kname(o[1]), o[2]) if c["api"] == "sync" else drive(bt.put(kname(o[1]), o[2]))
+            r = None
+        elif o[0] == "del":
+            r = drive(bt.delete(kname(o[1])))
+        elif o[0] == "get":
+            r = bt.get_sync(kname(o[1])) if c["api"] == "sync" else drive(bt.get(kname(o[1])))
+        else:
+            r = [[kid(k), v] for k, v in drive(bt.scan(kname(o[1]), kname(o[2])))]
+        results.append(r)
+        snaps.append(bt_dump(bt))
+    return dict(results=results, snaps=snaps)
+
+
+def encode_bt_seq(c, obs):
+    steps = [(bop_term(o), bout_term(o, r), bsnap_term(s)) for o, r, s in zip(c["ops"], obs["results"], obs["snaps"])]
+    return term((c["order"], steps))
+
+
+def oracle_bt_seq(c, obs):
+    out = seq_oracle(c["ops"], obs["results"], "btree")
+    ref = set()
+    for o, r in zip(c["ops"], obs["results"]):
+        if o[0] == "del" and bool(r) != (o[1] in ref):
+            out.append(dict(clause="btree: delete reports whether the key existed", op=o, got=r))
+            break
+        if o[0] == "put":
+            ref.add(o[1])
+        elif o[0] == "del":
+            ref.discard(o[1])
+    return out
+
+
+def gen_bt_conc(rng):
+    nkeys = rng.choice([4, 6, 10])
+    t, ops = 0, []
+    for i, o in enumerate(gen_ops(rng, rng.randint(4, 30), nkeys)):
+        t += rng.choices([0, 200 * US, 500 * US, MS, 1500 * US, 2 * MS, 3 * MS, 5 * MS], [3, 2, 3, 3, 2, 2, 1, 1])[0]
+        if o[0] == "put":
+            o[2] = 100 + i
+        ops.append([t, o])
+    return dict(order=rng.choice([3, 3, 4, 5]), nkeys=nkeys, ops=ops)
+
+
+def impl_bt_conc(c):
+    from happysimulator.components.storage.btree import BTree
+    from happysimulator.core.entity import Entity
+    from happysimulator.core.event import Event
+    from happysimulator.core.simulation import Simulation
+    from happysimulator.core.temporal import Instant
+    from hsverif.util import run_bounded
+    bt = BTree("bt", order=c["order"])
+    log = []
+
+    class Worker(Entity):
+        def handle_event(self, event):
+            op, oid = event.context["op"], event.context["oid"]
+            g = (bt.put(kname(op[1]), op[2]) if op[0] == "put" else bt.delete(kname(op[1])) if op[0] == "del"
+                 else bt.get(kname(op[1])) if op[0] == "get" else bt.scan(kname(op[1]), kname(op[2])))
+            first = True
+            while True:
+                kind = "start" if first else "resume"
+                first = False
+                t = self.now.nanoseconds
+                splits = bt._total_splits
+                try:
+                    d = next(g)
+                except StopIteration as e:
+                    r = e.value
+                    if op[0] == "scan":
+                        r = [[kid(k), v] for k, v in r]
+                    log.append([kind, oid, t, ["done", r], bt_dump(bt), bt._total_splits - splits])
+                    return
+                log.append([kind, oid, t, ["yield", ns_of(d)], bt_dump(bt), bt._total_splits - splits])
+                yield d
+    w = Worker("w")
+    sim = Simulation(end_time=Instant.from_seconds(1000), entities=[bt, w])
+    for i, (t, op) in enumerate(c["ops"]):
+        sim.schedule(Event(time=Instant(t), event_type="op", target=w, context={"op": op, "oid": i}))
+    _, verdict = run_bounded(sim)
+    return dict(log=log, verdict=verdict)
+
+
+def encode_bt_conc(c, obs):
+    steps, prev = [], None
+    for kind, oid, t, payload, snap, _ in obs["log"]:
+        op = c["ops"][oid][1]
+        st = Ctor("BStart", oid, bop_term(op)) if kind == "start" else Ctor("BResume", oid)
+        ob = Ctor("BObsYield", payload[1]) if payload[0] == "yield" else Ctor("BObsDone", bout_term(op, payload[1]))
+        steps.append((st, ob, None if snap == prev else SomeV(bsnap_term(snap))))
+        prev = snap
+    return term((c["order"], steps))
+
+
+def oracle_bt_conc(c, obs):
+    log5 = [e[:5] for e in obs["log"]]
+    fails = conc_oracle(c, dict(log=log5, verdict=obs["verdict"]), "btree")
+    split_times = [e[2] for e in obs["log"] if e[5] > 0]
+    for f in fails:
+        if "interval" in f and f["op"][0] == "get":
+            rs, re = f["interval"]
+            if any(rs <= t <= re for t in split_times):
+                f["mechanism"] = "get-overlaps-split"
+                f["what"] = ("BTree.get keeps a node reference (and the depth) across its per-level yields; an insert that splits that node "
+                             "(or the root) meanwhile moves keys to a sibling the suspended get never visits")
+    return fails[:3]
+
+
+def attribute_bt_conc(c, obs, f):
+    return "C14-btree-get-overlaps-split" if f.get("mechanism") == "get-overlaps-split" else None
+
+
 FAMILIES = [
     Family("lsm_seq", IMPORTS, "ok_lsm_seq", "cfg * list (list Z * Z) * list (op * out * snap)",
            gen_lsm_seq, impl_lsm_seq, encode_lsm_seq, oracle_lsm_seq,
@@ -720,6 +883,13 @@ FAMILIES = [
            gen_txn, impl_txn, encode_txn, oracle_txn,
            nontrivial=lambda c, o: o["stats"][0] >= 2, attribute=attribute_txn, parallel=True,
            describe=lambda c: ",".join(sorted({t["iso"] for w in c["workers"] for t in w["txns"]}))),
+    Family("bt_seq", BT_IMPORTS, "ok_bt_seq", "Z * list (bop * bout * bsnap)",
+           gen_bt_seq, impl_bt_seq, encode_bt_seq, oracle_bt_seq,
+           nontrivial=lambda c, o: o["snaps"][-1]["depth"] >= 3, describe=lambda c: f"order={c['order']}"),
+    Family("bt_conc", BT_IMPORTS, "ok_bt_conc", "Z * list (bstep * bobs * option bsnap)",
+           gen_bt_conc, impl_bt_conc, encode_bt_conc, oracle_bt_conc,
+           nontrivial=lambda c, o: any(e[5] > 0 for e in o["log"]), attribute=attribute_bt_conc, parallel=True,
+           describe=lambda c: f"order={c['order']}"),
 ]
 
 TRUSTED = [
@@ -731,7 +901,7 @@ TRUSTED = [
     "the level list has fixed length max_levels",
 ]
 
-PROOF_FILES = ["C14/Model.v", "C14/LsmProofs.v", "C14/ConcProofs.v", "C14/KvTxnModel.v", "C14/KvTxnProofs.v", "C14/Props.v"]
+PROOF_FILES = ["C14/Model.v", "C14/LsmProofs.v", "C14/ConcProofs.v", "C14/KvTxnModel.v", "C14/KvTxnProofs.v", "C14/BtModel.v", "C14/BtProofs.v", "C14/Props.v"]
 
 
 class Sharded:
@@ -751,14 +921,21 @@ class Sharded:
 
 def run(ctx):
     ctx.prove(PROOF_FILES, allowed_axioms=(), trusted_base=TRUSTED)
-    sctx = Sharded(ctx, 40)
-    stats = [run_family(sctx, FAMILIES[0], ctx.n(300, 6000)),
-             run_family(Sharded(ctx, 25), FAMILIES[1], ctx.n(300, 6000)),
-             run_family(Sharded(ctx, 25), FAMILIES[2], ctx.n(150, 3000)),
-             run_family(Sharded(ctx, 25), FAMILIES[3], ctx.n(200, 4000))]
-    merge_stats(ctx, stats, "random workloads over 3-6 keys, memtable size 1-4, 1-4 levels, three strategies; "
-                            "non-trivial = at least two compactions and a delete; distinct by JSON of the input")
+    fam = {f.name: f for f in FAMILIES}
+    plan = [("lsm_seq", 40, ctx.n(120, 5000)), ("lsm_conc", 20, ctx.n(160, 6000)), ("kv_conc", 25, ctx.n(60, 2000)),
+            ("txn", 25, ctx.n(100, 4000)), ("bt_seq", 25, ctx.n(80, 3000)), ("bt_conc", 20, ctx.n(100, 4000))]
+    stats = [run_family(Sharded(ctx, shard), fam[name], n) for name, shard, n in plan]
+    merge_stats(ctx, stats, "random workloads over 2-6 keys (B-tree up to 20), memtable size 1-4, 1-4 levels, three strategies, B-tree order 3-6; "
+                            "start offsets chosen on a grid that lands inside flush/compaction/split/commit windows; "
+                            "non-trivial = >=2 compactions and a delete (lsm_seq), a read overlapping a flush/compaction window (lsm_conc), "
+                            "depth >= 3 (bt_seq), a split (bt_conc), >= 2 commits (txn); distinct by JSON of the input")
     ctx.finish_obligations()
+    ctx.assumptions += [
+        "LSM overlap clause refuted on the faithful step machine (c14_lsm_overlap_refuted, c14_lsm_scan_overlap_refuted): findings C14-lsm-compaction-not-isolated, C14-lsm-read-overlaps-compaction",
+        "B-tree: overlap clause refuted (c14_btree_overlap_refuted, finding C14-btree-get-overlaps-split); the B-tree's sequential map refinement is NOT proved, it is tied by correspondence (bt_seq) and checked by the oracle only",
+        "snapshot isolation refuted (c14_si_snapshot_refuted, finding C14-si-reads-live); serializability proved for the transaction manager over an atomic store (KVStore)",
+        "flush-window defect (reads during a memtable flush) repaired in /repo commit 111a92c; the models follow the repaired code",
+    ]
 
 
 def replay(data):
